@@ -18,6 +18,7 @@ void verif_assert(int c, const char* msg);
 void verif_reach(const char* name);
 void verif_note(const char* name, uint64_t v);
 void verif_fail(const char* msg);
+void verif_hook(const char* name);      // symbolic runs: an executor-side check registered under this name (e.g. an independent reader of the modelled tables); native: no-op
 }
 namespace verif
 {
